@@ -136,7 +136,7 @@ def tasks(tier, seed):
     for algo in ('QLearning', 'SARSA', 'ExpectedSARSA', 'DoubleQLearning'):
         T.append(Task('frame/%s' % algo, frame_only(C10.h_td), (algo, e3, 'default', 1, False, 8), tier='B', max_paths=6000, deadline_s=400))
     T.append(Task('frame/RMAX', frame_only(C17.h_train), (C17.episodic()[1], 1, 1, 12), tier='B', max_paths=8000, deadline_s=400))
-    s3 = M.family_basic('quick')[2]
+    s3 = M.basic('s3-branch')
     T.append(Task('frame/Policy.run_on', frame_only(C14.h_run_on), (s3, 'full', 'sampled', 2, seed), tier='B'))
     T.append(Task('frame/Policy.evaluate_on', frame_only(C14.h_evaluate_on), (s3, 'full', 2, 2, seed), tier='B', max_paths=4000))
     pf = [x for x in P.family(tier, seed) if x.name == 'p222-falsy-labels'][0]
